@@ -26,6 +26,9 @@ steps = [
     Step(
         "ALTER TABLE named_instance ADD COLUMN instance_id INTEGER;",
     ),
+    Step(
+        "ALTER TABLE object DROP COLUMN latent_variables_for_id;",
+    ),
 ]
 
 migrator = Migrator(*steps)
